@@ -42,7 +42,7 @@ func refVersionValidAt(v secrets.Version, t time.Time) bool {
 	return !t.Before(v.ValidFrom) && (v.ValidUntil.IsZero() || t.Before(v.ValidUntil))
 }
 
-// verif:harness props=C08,C17 tier=quick native=yes weight=560
+// verif:harness props=C08,C17 tier=quick native=yes weight=560 tonly=C08
 // verif:bounds signature header 0 or 64 symbolic bytes (thorough also 2); timestamp header 0 or 2 symbolic bytes (thorough 0..3); nonce 0..1 bytes; path 2 symbolic bytes; body 1 symbolic byte; method POST; arbitrary clock; static secret, or 2 rotating secret versions with arbitrary validity windows; SHA-256/HMAC uninterpreted (functional consistency only)
 func VerifC08HMACSound() {
 	now := vrt.Time("now")
@@ -111,7 +111,7 @@ func VerifC08HMACSound() {
 	vrt.Assert("C08.hmac.signature-equals-hmac-under-a-secret-valid-at-signed-time", match)
 }
 
-// verif:harness props=C08,C17 tier=quick weight=40
+// verif:harness props=C08,C17 tier=quick weight=40 tonly=C08
 // verif:bounds a correctly signed request (timestamp 1700000000, path 2 symbolic bytes, body 1 symbolic byte, fresh nonce) under each of 2 rotating secret versions with arbitrary windows; arbitrary clock
 func VerifC08HMACComplete() {
 	now := vrt.Time("now")
